@@ -115,6 +115,7 @@ pub proof fn lemma_dc_sq_rec(l0: Seq<Word>, l1: Seq<Word>, rhs: Seq<Word>, o: bo
             && pw(m) >= 1 && pw(n) >= 1 && pw(n - m) >= 1
     }),
 {
+    reveal(div_post);
     let k = n - m;
     let s0 = l0.subrange(k, n + m);
     let s1 = l1.subrange(k, n + m);
@@ -198,6 +199,7 @@ pub proof fn lemma_dc_sq_post(l0: Seq<Word>, l2: Seq<Word>, rhs: Seq<Word>, ret:
         ret == (val(l0.subrange(m, n + m)) >= val(rhs)),
     ensures div_post(l0, l2, rhs, ret),
 {
+    reveal(div_post);
     assert(l0.subrange(l0.len() - n, l0.len() as int) =~= l0.subrange(m, n + m));
 }
 
@@ -239,6 +241,7 @@ pub proof fn lemma_dc_outer_seq(a: int, l: Seq<Word>, l2: Seq<Word>, rhs: Seq<Wo
         val(l2.subrange(s, s + n)) < val(rhs),
         o == (val(l.subrange(m - n, m)) >= val(rhs)),
 {
+    reveal(div_post);
     let len = l.len() as int;
     let w = m - s - n;
     let b0 = l.subrange(s, m);
@@ -269,4 +272,65 @@ pub proof fn lemma_dc_outer_seq(a: int, l: Seq<Word>, l2: Seq<Word>, rhs: Seq<Wo
     lemma_dc_outer_step(a, val(l.subrange(m, len)), b2i(ov), b2i(o), val(b1.subrange(n, n + w)), val(b1.subrange(0, n)),
         val(l.subrange(0, s)), val(b0), val(l.subrange(0, m)), val(rhs), pk, pw(m - n), pw(w), pw(s));
     assert(pw(w) * val(l.subrange(m, len)) == val(l.subrange(m, len)) * pw(w)) by (nonlinear_arith);
+}
+
+// ---- the outer block loop of divide_conquer::div_rem_in_place, with its invariant kept abstract (closed) so that the
+//      loop body never sees the non-linear arithmetic ---------------------------------------------------------------
+pub mod dc_outer {
+use super::*;
+/// state after the blocks above position m have been divided: quotient words in l[m..], running remainder in l[..m]
+/// (its top n words already below the divisor unless nothing has happened yet), carry `ov` on top of the quotient
+pub closed spec fn inv(l0: Seq<Word>, l: Seq<Word>, rhs: Seq<Word>, ov: bool, m: int) -> bool {
+    let len = l0.len() as int;
+    let n = rhs.len() as int;
+    let rr = val(rhs);
+    &&& l.len() == l0.len() && 1 <= n <= m <= len
+    &&& val(l0) == ((val(l.subrange(m, len)) + b2i(ov) * pw(len - m)) * pw(m - n)) * rr + val(l.subrange(0, m))
+    &&& (m < len ==> val(l.subrange(m - n, m)) < rr)
+    &&& (m < len ==> ov == (val(l0.subrange(len - n, len)) >= rr))
+    &&& (m == len ==> !ov && l == l0)
+}
+
+pub proof fn lemma_init(l0: Seq<Word>, rhs: Seq<Word>)
+    requires 1 <= rhs.len() <= l0.len(),
+    ensures inv(l0, l0, rhs, false, l0.len() as int),
+{
+    let len = l0.len() as int;
+    assert(l0.subrange(len, len).len() == 0);
+    assert(val(l0.subrange(len, len)) == 0);
+    assert(pw(0) == 1);
+    assert(l0.subrange(0, len) =~= l0);
+    assert(((0 + b2i(false) * pw(0)) * pw(len - rhs.len())) * val(rhs) == 0) by (nonlinear_arith) requires b2i(false) == 0;
+}
+
+/// one block: l[s..m] divided in place (div_post), everything else untouched
+pub proof fn lemma_step(l0: Seq<Word>, l: Seq<Word>, l2: Seq<Word>, rhs: Seq<Word>, o: bool, ov: bool, s: int, m: int)
+    requires inv(l0, l, rhs, ov, m), 0 <= s, s + rhs.len() < m, l2.len() == l.len(),
+        forall|j: int| (0 <= j < s || m <= j < l.len()) ==> l2[j] == l[j],
+        div_post(l.subrange(s, m), l2.subrange(s, m), rhs, o),
+    ensures inv(l0, l2, rhs, ov || o, s + rhs.len()), o ==> m == l.len(),
+{
+    let n = rhs.len() as int;
+    let len = l0.len() as int;
+    lemma_dc_outer_seq(val(l0), l, l2, rhs, o, ov, s, m, n);
+    if m == len { assert(l == l0); } else { assert(!o); }
+}
+
+pub proof fn lemma_fin(l0: Seq<Word>, l: Seq<Word>, rhs: Seq<Word>, ov: bool)
+    requires inv(l0, l, rhs, ov, rhs.len() as int), rhs.len() < l0.len(),
+    ensures div_post(l0, l, rhs, ov),
+{
+    reveal(div_post);
+    let n = rhs.len() as int;
+    let len = l0.len() as int;
+    assert(pw(0) == 1);
+    let q = val(l.subrange(n, len)) + b2i(ov) * pw(len - n);
+    assert((q * pw(0)) * val(rhs) == q * val(rhs)) by (nonlinear_arith) requires pw(0) == 1;
+    assert(l.subrange(n - n, n) =~= l.subrange(0, n));
+}
+
+pub proof fn lemma_bounds(l0: Seq<Word>, l: Seq<Word>, rhs: Seq<Word>, ov: bool, m: int)
+    requires inv(l0, l, rhs, ov, m),
+    ensures l.len() == l0.len(), rhs.len() <= m <= l0.len(),
+{}
 }
